@@ -152,8 +152,7 @@ func checkBytes(r *mon.Run, tg *target, b []byte, ri *refInfo, o byteOpts) (acce
 			cnt[c_rejected_grammatical]++
 			if tg.T == ifaceType || tg.Name == "rlp.RawValue" {
 				// the untyped targets must accept exactly the canonical language
-				r.Violation(tsig("DecodeBytes", tg, "rejects-canonical-item"),
-					fmt.Sprintf("DecodeBytes(%x) into %s = %v, but the input is one canonical RLP item", clip(b), tg.Name, err), c)
+				viol(r, tsig("DecodeBytes", tg, "rejects-canonical-item"), c, "DecodeBytes(%x) into %s = %v, but the input is one canonical RLP item", clip(b), tg.Name, err)
 			}
 		} else {
 			cnt[c_rejected_ungrammatical]++
@@ -169,23 +168,19 @@ func checkBytes(r *mon.Run, tg *target, b []byte, ri *refInfo, o byteOpts) (acce
 			if ri.shErr != nil {
 				code = ri.shErr.Code
 			}
-			r.Violation(tsig("grammar", tg, code),
-				fmt.Sprintf("DecodeBytes(%x) into %s accepted an item whose outermost header is not canonical (%s)", clip(b), tg.Name, code), c)
+			viol(r, tsig("grammar", tg, code), c, "DecodeBytes(%x) into %s accepted an item whose outermost header is not canonical (%s)", clip(b), tg.Name, code)
 		} else if ri.shallow.Kind == rlpref.List && tg.Name != "rlp.RawValue" {
 			// list of raw values: the element headers were read by the decoder as well
 			if _, e := rlpref.Count(ri.shallow.Content); e != nil {
-				r.Violation(tsig("grammar", tg, "element:"+e.Code),
-					fmt.Sprintf("DecodeBytes(%x) into %s accepted a list with a non-canonical element header (%s)", clip(b), tg.Name, e.Code), c)
+				viol(r, tsig("grammar", tg, "element:"+e.Code), c, "DecodeBytes(%x) into %s accepted a list with a non-canonical element header (%s)", clip(b), tg.Name, e.Code)
 			}
 		}
 	} else if !ri.exact {
-		r.Violation(tsig("grammar", tg, ri.exactCode()),
-			fmt.Sprintf("DecodeBytes(%x) into %s accepted a non-canonical string (%s)", clip(b), tg.Name, ri.exactCode()), c)
+		viol(r, tsig("grammar", tg, ri.exactCode()), c, "DecodeBytes(%x) into %s accepted a non-canonical string (%s)", clip(b), tg.Name, ri.exactCode())
 	}
 	// integers: no leading zero, zero is the empty string
 	if tg.Int && ri.exact && ri.first.Kind != rlpref.List && len(ri.first.Content) > 0 && ri.first.Content[0] == 0 {
-		r.Violation(tsig("grammar", tg, "leading-zero-integer"),
-			fmt.Sprintf("DecodeBytes(%x) into %s accepted an integer with a leading zero byte", clip(b), tg.Name), c)
+		viol(r, tsig("grammar", tg, "leading-zero-integer"), c, "DecodeBytes(%x) into %s accepted an integer with a leading zero byte", clip(b), tg.Name)
 	}
 	// (2) re-encode identity
 	var enc []byte
@@ -194,10 +189,9 @@ func checkBytes(r *mon.Run, tg *target, b []byte, ri *refInfo, o byteOpts) (acce
 	}
 	cnt[c_reencode_checks]++
 	if err != nil {
-		r.Violation(tsig("reencode", tg, "encoder-error"), fmt.Sprintf("decoded value of %x does not encode: %v", clip(b), err), c)
+		viol(r, tsig("reencode", tg, "encoder-error"), c, "decoded value of %x does not encode: %v", clip(b), err)
 	} else if !bytes.Equal(enc, b) {
-		r.Violation(tsig("reencode", tg, classifyReencode(b, enc)),
-			fmt.Sprintf("DecodeBytes(%x) into %s succeeded but the value re-encodes to %x", clip(b), tg.Name, clip(enc)), c)
+		viol(r, tsig("reencode", tg, classifyReencode(b, enc)), c, "DecodeBytes(%x) into %s succeeded but the value re-encodes to %x", clip(b), tg.Name, clip(enc))
 	}
 	// (5) suffix independence
 	for i := 0; i < o.nJunk && i < len(junks); i++ {
@@ -209,11 +203,9 @@ func checkBytes(r *mon.Run, tg *target, b []byte, ri *refInfo, o byteOpts) (acce
 		}
 		cnt[c_suffix_checks]++
 		if err == nil {
-			r.Violation(tsig("suffix", tg, "trailing-data-accepted"),
-				fmt.Sprintf("DecodeBytes(%x ‖ %x) into %s succeeded although %x alone is a complete accepted value", clip(b), j, tg.Name, clip(b)), c)
+			viol(r, tsig("suffix", tg, "trailing-data-accepted"), c, "DecodeBytes(%x ‖ %x) into %s succeeded although %x alone is a complete accepted value", clip(b), j, tg.Name, clip(b))
 		} else if err != rlp.ErrMoreThanOneValue {
-			r.Violation(tsig("suffix", tg, "outcome-depends-on-bytes-after-value"),
-				fmt.Sprintf("DecodeBytes(%x) is accepted, DecodeBytes(%x ‖ %x) fails with %q instead of ErrMoreThanOneValue", clip(b), clip(b), j, err), c)
+			viol(r, tsig("suffix", tg, "outcome-depends-on-bytes-after-value"), c, "DecodeBytes(%x) is accepted, DecodeBytes(%x ‖ %x) fails with %q instead of ErrMoreThanOneValue", clip(b), clip(b), j, err)
 		}
 		// the Stream API on the same bytes: same value, reader left exactly at the junk
 		rd := bytes.NewReader(bj)
@@ -222,14 +214,11 @@ func checkBytes(r *mon.Run, tg *target, b []byte, ri *refInfo, o byteOpts) (acce
 			continue
 		}
 		if err != nil {
-			r.Violation(tsig("suffix", tg, "stream-outcome-depends-on-bytes-after-value"),
-				fmt.Sprintf("Stream.Decode(%x ‖ %x) into %s fails with %q although %x alone is accepted", clip(b), j, tg.Name, err, clip(b)), c)
+			viol(r, tsig("suffix", tg, "stream-outcome-depends-on-bytes-after-value"), c, "Stream.Decode(%x ‖ %x) into %s fails with %q although %x alone is accepted", clip(b), j, tg.Name, err, clip(b))
 		} else if rd.Len() != len(j) {
-			r.Violation(tsig("suffix", tg, "stream-consumed-wrong-length"),
-				fmt.Sprintf("Stream.Decode(%x ‖ %x) left %d bytes unread, want %d", clip(b), j, rd.Len(), len(j)), c)
+			viol(r, tsig("suffix", tg, "stream-consumed-wrong-length"), c, "Stream.Decode(%x ‖ %x) left %d bytes unread, want %d", clip(b), j, rd.Len(), len(j))
 		} else if !tg.Tx && !normEqual(p.Elem(), q2.Elem()) {
-			r.Violation(tsig("suffix", tg, "value-depends-on-bytes-after-value"),
-				fmt.Sprintf("Stream.Decode(%x ‖ %x) into %s gives a different value than DecodeBytes(%x)", clip(b), j, tg.Name, clip(b)), c)
+			viol(r, tsig("suffix", tg, "value-depends-on-bytes-after-value"), c, "Stream.Decode(%x ‖ %x) into %s gives a different value than DecodeBytes(%x)", clip(b), j, tg.Name, clip(b))
 		}
 	}
 	return true
@@ -260,27 +249,27 @@ func checkUntyped(r *mon.Run, b []byte, ri *refInfo, origin string) {
 		cnt[c_split_checks]++
 		switch {
 		case err == nil && ri.shErr != nil:
-			r.Violation("C08:grammar:Split:accepts:"+ri.shErr.Code, fmt.Sprintf("Split(%x) succeeds on a non-canonical header (%s)", clip(b), ri.shErr.Code), c)
+			viol(r, "C08:grammar:Split:accepts:"+ri.shErr.Code, c, "Split(%x) succeeds on a non-canonical header (%s)", clip(b), ri.shErr.Code)
 		case err != nil && ri.shErr == nil:
-			r.Violation("C08:Split:rejects-canonical-item", fmt.Sprintf("Split(%x) = %v but the first item is canonical", clip(b), err), c)
+			viol(r, "C08:Split:rejects-canonical-item", c, "Split(%x) = %v but the first item is canonical", clip(b), err)
 		case err == nil:
 			cnt[c_split_accepted]++
 			if int(k) != int(ri.shallow.Kind) || !bytes.Equal(content, ri.shallow.Content) || !bytes.Equal(rest, ri.shRest) {
-				r.Violation("C08:Split:wrong-result", fmt.Sprintf("Split(%x) = (%v, %x, rest %x), reference (%v, %x, rest %x)", clip(b), k, clip(content), clip(rest), ri.shallow.Kind, clip(ri.shallow.Content), clip(ri.shRest)), c)
+				viol(r, "C08:Split:wrong-result", c, "Split(%x) = (%v, %x, rest %x), reference (%v, %x, rest %x)", clip(b), k, clip(content), clip(rest), ri.shallow.Kind, clip(ri.shallow.Content), clip(ri.shRest))
 			}
 			// suffix independence of Split
 			for _, j := range junks[:3] {
 				bj := append(append(make([]byte, 0, len(b)+len(j)), b[:len(b)-len(rest)]...), j...)
 				k2, c2, r2, e2 := rlp.Split(bj)
 				if e2 != nil || k2 != k || !bytes.Equal(c2, content) || !bytes.Equal(r2, j) {
-					r.Violation("C08:suffix:Split:result-depends-on-bytes-after-value", fmt.Sprintf("Split(%x ‖ %x) = (%v, %x, %x, %v)", clip(b), j, k2, clip(c2), clip(r2), e2), c)
+					viol(r, "C08:suffix:Split:result-depends-on-bytes-after-value", c, "Split(%x ‖ %x) = (%v, %x, %x, %v)", clip(b), j, k2, clip(c2), clip(r2), e2)
 				}
 			}
 			// SplitString / SplitList agree with the kind
 			_, _, es := rlp.SplitString(b)
 			_, _, el := rlp.SplitList(b)
 			if (es == nil) != (k != rlp.List) || (el == nil) != (k == rlp.List) {
-				r.Violation("C08:Split:SplitString-SplitList-disagree-with-kind", fmt.Sprintf("Split(%x) kind %v, SplitString err %v, SplitList err %v", clip(b), k, es, el), c)
+				viol(r, "C08:Split:SplitString-SplitList-disagree-with-kind", c, "Split(%x) kind %v, SplitString err %v, SplitList err %v", clip(b), k, es, el)
 			}
 		}
 	}
@@ -291,11 +280,11 @@ func checkUntyped(r *mon.Run, b []byte, ri *refInfo, origin string) {
 		cnt[c_count_checks]++
 		switch {
 		case err == nil && rerr != nil:
-			r.Violation("C08:grammar:CountValues:accepts:"+rerr.Code, fmt.Sprintf("CountValues(%x) = %d on a sequence with a non-canonical header (%s)", clip(b), n, rerr.Code), c)
+			viol(r, "C08:grammar:CountValues:accepts:"+rerr.Code, c, "CountValues(%x) = %d on a sequence with a non-canonical header (%s)", clip(b), n, rerr.Code)
 		case err != nil && rerr == nil:
-			r.Violation("C08:CountValues:rejects-canonical-sequence", fmt.Sprintf("CountValues(%x) = %v, reference counts %d items", clip(b), err, rn), c)
+			viol(r, "C08:CountValues:rejects-canonical-sequence", c, "CountValues(%x) = %v, reference counts %d items", clip(b), err, rn)
 		case err == nil && n != rn:
-			r.Violation("C08:CountValues:wrong-count", fmt.Sprintf("CountValues(%x) = %d, reference %d", clip(b), n, rn), c)
+			viol(r, "C08:CountValues:wrong-count", c, "CountValues(%x) = %d, reference %d", clip(b), n, rn)
 		}
 	}
 	// Stream walkers (first value of the stream)
@@ -336,16 +325,16 @@ func checkUntyped(r *mon.Run, b []byte, ri *refInfo, origin string) {
 		}
 		switch {
 		case err == nil && !wantOK:
-			r.Violation("C08:grammar:"+name+":accepts:"+code, fmt.Sprintf("%s walk of %x succeeds although the input is not canonical (%s)", name, clip(b), code), c)
+			viol(r, "C08:grammar:"+name+":accepts:"+code, c, "%s walk of %x succeeds although the input is not canonical (%s)", name, clip(b), code)
 		case err != nil && wantOK:
-			r.Violation("C08:"+name+":rejects-canonical-item", fmt.Sprintf("%s walk of %x fails with %v on a canonical item", name, clip(b), err), c)
+			viol(r, "C08:"+name+":rejects-canonical-item", c, "%s walk of %x fails with %v on a canonical item", name, clip(b), err)
 		case err == nil:
 			cnt[c_stream_walks_accepted]++
 			used := len(b) - rd.Len()
 			if used != ri.shallow.Total() {
-				r.Violation("C08:"+name+":consumed-wrong-length", fmt.Sprintf("%s walk of %x consumed %d bytes, the first item has %d", name, clip(b), used, ri.shallow.Total()), c)
+				viol(r, "C08:"+name+":consumed-wrong-length", c, "%s walk of %x consumed %d bytes, the first item has %d", name, clip(b), used, ri.shallow.Total())
 			} else if got := walkEnc(tree); !bytes.Equal(got, b[:used]) {
-				r.Violation("C08:"+name+":wrong-content", fmt.Sprintf("%s walk of %x yields content that encodes to %x", name, clip(b), clip(got)), c)
+				viol(r, "C08:"+name+":wrong-content", c, "%s walk of %x yields content that encodes to %x", name, clip(b), clip(got))
 			}
 		}
 	}
@@ -479,8 +468,7 @@ func checkAlloc(r *mon.Run, tg *target, b []byte, origin string) {
 		r.Max("max_alloc_ratio_x100_inputs_ge16B", d*100/int64(len(b)))
 	}
 	if d > bound {
-		r.Violation(tsig("alloc", tg, "disproportionate-allocation"),
-			fmt.Sprintf("DecodeBytes of %d input bytes (%x…) into %s allocated %d bytes (bound %d·len+%d)", len(b), clip(b), tg.Name, d, allocPerByte, allocSlack), c)
+		viol(r, tsig("alloc", tg, "disproportionate-allocation"), c, "DecodeBytes of %d input bytes (%x…) into %s allocated %d bytes (bound %d·len+%d)", len(b), clip(b), tg.Name, d, allocPerByte, allocSlack)
 	}
 }
 
@@ -490,7 +478,10 @@ func checkAlloc(r *mon.Run, tg *target, b []byte, origin string) {
 // claimed (observed: 36 GiB resident from a 9-byte input) and would take the
 // machine down; smaller claims show the same behaviour safely and larger ones
 // end in a recoverable makeslice panic.
-func claimsDangerousSize(b []byte) bool {
+func claimsDangerousSize(b []byte) bool { return claimsSizeIn(b, 16<<20+1, 1<<63) }
+
+// claimsSizeIn: some position of b looks like a long-form header claiming lo <= size < hi.
+func claimsSizeIn(b []byte, lo, hi uint64) bool {
 	for i, t := range b {
 		var k int
 		switch {
@@ -508,7 +499,7 @@ func claimsDangerousSize(b []byte) bool {
 		for _, c := range b[i+1 : i+1+k] {
 			size = size<<8 | uint64(c)
 		}
-		if size > 16<<20 && size < 1<<63 {
+		if size >= lo && size < hi {
 			return true
 		}
 	}
@@ -538,8 +529,7 @@ func checkReader(r *mon.Run, tg *target, b []byte, origin string) {
 			cnt[c_reader_checks]++
 			trailing := err0 == rlp.ErrMoreThanOneValue
 			if (err == nil) != (err0 == nil || trailing) {
-				r.Violation(tsig("Stream(limit).Decode", tg, "differs-from-DecodeBytes"),
-					fmt.Sprintf("NewStream(reader,len).Decode(%x) err=%v, DecodeBytes err=%v", clip(b), err, err0), c)
+				viol(r, tsig("Stream(limit).Decode", tg, "differs-from-DecodeBytes"), c, "NewStream(reader,len).Decode(%x) err=%v, DecodeBytes err=%v", clip(b), err, err0)
 			}
 		}
 	}
@@ -559,8 +549,7 @@ func checkReader(r *mon.Run, tg *target, b []byte, origin string) {
 	cnt[c_reader_checks]++
 	r.Max("max_alloc_bytes_unlimited_reader", d)
 	if d > bound {
-		r.Violation(tsig("alloc", tg, "Decode(io.Reader,no-limit):disproportionate-allocation"),
-			fmt.Sprintf("rlp.Decode from a %d-byte reader (%x…) into %s allocated %d bytes", len(b), clip(b), tg.Name, d), c)
+		viol(r, tsig("alloc", tg, "Decode(io.Reader,no-limit):disproportionate-allocation"), c, "rlp.Decode from a %d-byte reader (%x…) into %s allocated %d bytes", len(b), clip(b), tg.Name, d)
 	}
 }
 
@@ -606,29 +595,29 @@ func checkValue(r *mon.Run, tg *target, idx int) []byte {
 		return want
 	}
 	if err != nil || err2 != nil {
-		r.Violation(tsig("encode", tg, "encoder-error"), fmt.Sprintf("EncodeToBytes: %v / %v", err, err2), c)
+		viol(r, tsig("encode", tg, "encoder-error"), c, "EncodeToBytes: %v / %v", err, err2)
 		return want
 	}
 	if !bytes.Equal(enc, enc2) {
-		r.Violation(tsig("encode", tg, "pointer-and-value-encode-differently"), fmt.Sprintf("%x vs %x", clip(enc), clip(enc2)), c)
+		viol(r, tsig("encode", tg, "pointer-and-value-encode-differently"), c, "%x vs %x", clip(enc), clip(enc2))
 	}
 	if !bytes.Equal(enc, want) {
 		cl := "differs-from-reference-encoding"
 		if _, e := rlpref.ParseExact(enc); e != nil {
 			cl = "noncanonical-output:" + e.Code
 		}
-		r.Violation(tsig("encode", tg, cl), fmt.Sprintf("EncodeToBytes = %x, reference encoding %x", clip(enc), clip(want)), c)
+		viol(r, tsig("encode", tg, cl), c, "EncodeToBytes = %x, reference encoding %x", clip(enc), clip(want))
 	}
 	q := reflect.New(tg.T)
 	if r.Guard(tsig("DecodeBytes", tg, "total"), c, func() { err = rlp.DecodeBytes(enc, q.Interface()) }) {
 		return want
 	}
 	if err != nil {
-		r.Violation(tsig("roundtrip", tg, "own-encoding-rejected"), fmt.Sprintf("DecodeBytes(EncodeToBytes(v)=%x) = %v", clip(enc), err), c)
+		viol(r, tsig("roundtrip", tg, "own-encoding-rejected"), c, "DecodeBytes(EncodeToBytes(v)=%x) = %v", clip(enc), err)
 		return want
 	}
 	if !normEqual(p.Elem(), q.Elem()) {
-		r.Violation(tsig("roundtrip", tg, "value-changed"), fmt.Sprintf("decode(encode(v)) != v for encoding %x: got %+v", clip(enc), q.Elem().Interface()), c)
+		viol(r, tsig("roundtrip", tg, "value-changed"), c, "decode(encode(v)) != v for encoding %x: got %+v", clip(enc), q.Elem().Interface())
 	}
 	return want
 }
@@ -650,7 +639,7 @@ func checkTxValue(r *mon.Run, tg *target, c Case, m *TxMirror, want []byte) {
 		return
 	}
 	if err != nil {
-		r.Violation(tsig("roundtrip", tg, "canonical-encoding-rejected"), fmt.Sprintf("DecodeBytes(%x) = %v", clip(want), err), c)
+		viol(r, tsig("roundtrip", tg, "canonical-encoding-rejected"), c, "DecodeBytes(%x) = %v", clip(want), err)
 		return
 	}
 	v, rr, s := tx.RawSignatureValues()
@@ -658,14 +647,14 @@ func checkTxValue(r *mon.Run, tg *target, c Case, m *TxMirror, want []byte) {
 	sameTo := (to == nil) == (m.Recipient == nil) && (to == nil || *to == *m.Recipient)
 	if tx.Nonce() != m.AccountNonce || !bigEq(tx.GasPrice(), m.Price) || tx.Gas() != m.GasLimit || !sameTo ||
 		!bigEq(tx.Value(), m.Amount) || !bytes.Equal(tx.Data(), m.Payload) || !bigEq(v, m.V) || !bigEq(rr, m.R) || !bigEq(s, m.S) {
-		r.Violation(tsig("roundtrip", tg, "value-changed"), fmt.Sprintf("transaction decoded from %x does not carry the encoded fields", clip(want)), c)
+		viol(r, tsig("roundtrip", tg, "value-changed"), c, "transaction decoded from %x does not carry the encoded fields", clip(want))
 	}
 	var enc []byte
 	if r.Guard(tsig("EncodeToBytes", tg, "total"), c, func() { enc, err = rlp.EncodeToBytes(tx) }) {
 		return
 	}
 	if err != nil || !bytes.Equal(enc, want) {
-		r.Violation(tsig("encode", tg, "differs-from-reference-encoding"), fmt.Sprintf("EncodeToBytes(tx) = %x err %v, reference %x", clip(enc), err, clip(want)), c)
+		viol(r, tsig("encode", tg, "differs-from-reference-encoding"), c, "EncodeToBytes(tx) = %x err %v, reference %x", clip(enc), err, clip(want))
 	}
 	// the constructors the node uses (V,R,S = 0)
 	var tx2 *eth_tx.Transaction
@@ -687,8 +676,23 @@ func checkTxValue(r *mon.Run, tg *target, c Case, m *TxMirror, want []byte) {
 		return
 	}
 	if err != nil || !bytes.Equal(enc, want2) {
-		r.Violation(tsig("encode", tg, "constructed-tx-differs-from-reference-encoding"), fmt.Sprintf("EncodeToBytes(NewTransaction(..)) = %x err %v, reference %x", clip(enc), err, clip(want2)), c)
+		viol(r, tsig("encode", tg, "constructed-tx-differs-from-reference-encoding"), c, "EncodeToBytes(NewTransaction(..)) = %x err %v, reference %x", clip(enc), err, clip(want2))
 	}
 }
 
 var _ = io.EOF
+
+// viol reports a violation; after three reports of a signature only the count
+// is kept (no message formatting, no witness), so a decoder that is broken
+// everywhere cannot stall the run.
+var violSeen = map[string]int{}
+
+func viol(r *mon.Run, sig string, witness interface{}, format string, a ...interface{}) {
+	n := violSeen[sig]
+	violSeen[sig] = n + 1
+	if n >= 3 {
+		r.Violation(sig, "", nil)
+		return
+	}
+	r.Violation(sig, fmt.Sprintf(format, a...), witness)
+}
